@@ -136,6 +136,14 @@ class ExonCorrector:
                     right_site = read_intron[1] if indel_count == 0 and mm_count <= 1 else ref_intron[1]
                     # logger.debug("Errors: %d, %d; res: %d" % (indel_count, mm_count, left_site))
 
+                # a site is moved only as long as the read exon next to it stays non-empty (a terminal exon may be shorter than the shift)
+                exon_before_start = read_region[0] if i == 0 else read_introns[i - 1][1] + 1
+                if left_site <= exon_before_start:
+                    left_site = read_intron[0]
+                exon_after_end = read_region[1] if i == len(read_introns) - 1 else read_introns[i + 1][0] - 1
+                if right_site >= exon_after_end:
+                    right_site = read_intron[1]
+
                 corrected_introns.append((left_site, right_site))
         else:
             corrected_introns = read_introns
